@@ -131,21 +131,6 @@ func confusion(thorough bool) []string {
 	return a
 }
 
-func corruptions(v any, thorough bool) []string {
-	var ps []pathT
-	paths(v, nil, &ps)
-	var out []string
-	for _, p := range ps {
-		if len(p) == 0 {
-			continue
-		}
-		for _, c := range confusion(thorough) {
-			out = append(out, render(v, nil, p, c))
-		}
-	}
-	return out
-}
-
 var enc = base64.RawURLEncoding
 
 // reseal recomputes the hashes that would otherwise stop a corrupted request at the door:
@@ -193,10 +178,47 @@ func reseal(text string, signer *keys.Key) []byte {
 	return b
 }
 
+// Lazy is an input whose bytes are produced on demand (the lists hold hundreds of thousands of
+// entries, many of them tens of kilobytes long; materialising them in every worker is wasteful).
+type Lazy struct {
+	Kind, Desc string
+	Make       func() []byte
+}
+
+func (l Lazy) Input() Input { return Input{l.Kind, l.Desc, l.Make()} }
+
+// corruptionCount / corruptionAt enumerate the corruptions of v without building them all.
+func corruptionSites(v any) []pathT {
+	var ps []pathT
+	paths(v, nil, &ps)
+	var out []pathT
+	for _, p := range ps {
+		if len(p) > 0 {
+			out = append(out, p)
+		}
+	}
+	return out
+}
+
 // Structured builds the structure-aware corrupted inputs.
-func Structured(thorough bool) []Input {
-	var out []Input
-	add := func(kind, desc string, data []byte) { out = append(out, Input{kind, desc, data}) }
+func Structured(thorough bool) []Lazy {
+	var out []Lazy
+	add := func(kind, desc string, data []byte) {
+		out = append(out, Lazy{kind, desc, func() []byte { return data }})
+	}
+	addLazy := func(kind, desc string, mk func() []byte) { out = append(out, Lazy{kind, desc, mk}) }
+	conf := confusion(thorough)
+	// each(v, f): for every (position, replacement) of v call f(index, thunk producing the corrupted text)
+	each := func(v any, f func(i int, text func() string)) {
+		i := 0
+		for _, p := range corruptionSites(v) {
+			for _, c := range conf {
+				p, c := p, c
+				f(i, func() string { return render(v, nil, p, c) })
+				i++
+			}
+		}
+	}
 	patchesJSON := `[{"action":"add-public-keys","publicKeys":[` + ops.PubKeyJSON("k1", keys.New("P-256", 500), `["authentication"]`) + `]},{"action":"add-services","services":[{"id":"s1","type":"T","serviceEndpoint":["https://a.example/",{"uri":"x"}]}]},{"action":"ietf-json-patch","patches":[{"op":"add","path":"/m","value":{"n":[1]}}]}]`
 	patches := ops.ParseJSON(patchesJSON).([]any)
 	types := []string{"Ed25519", "P-256", "secp256k1"}
@@ -220,12 +242,13 @@ func Structured(thorough bool) []Input {
 			rq := reqs[typ]
 			add("op", typ+"/"+kt+"/valid", ops.Bytes(rq.m))
 			// corruptions of the outer request, re-sealed
-			for i, c := range corruptions(rq.m, thorough) {
-				add("op", fmt.Sprintf("%s/%s/outer-%d", typ, kt, i), reseal(c, rq.signer))
+			each(rq.m, func(i int, text func() string) {
+				signer := rq.signer
+				addLazy("op", fmt.Sprintf("%s/%s/outer-%d", typ, kt, i), func() []byte { return reseal(text(), signer) })
 				if i%5 == 0 {
-					add("op", fmt.Sprintf("%s/%s/outer-raw-%d", typ, kt, i), []byte(c))
+					addLazy("op", fmt.Sprintf("%s/%s/outer-raw-%d", typ, kt, i), func() []byte { return []byte(text()) })
 				}
-			}
+			})
 			// corruptions inside the signed payload, re-signed
 			if rq.signer != nil {
 				sd := rq.m["signedData"].(string)
@@ -233,39 +256,43 @@ func Structured(thorough bool) []Input {
 				pb, _ := enc.DecodeString(parts[1])
 				var payload any
 				_ = json.Unmarshal(pb, &payload)
-				for i, c := range corruptions(payload, thorough) {
-					m2 := M{}
-					for k, v := range rq.m {
-						m2[k] = v
-					}
-					m2["signedData"] = rq.signer.SignCompact(rq.signer.Header(), []byte(c))
-					// reveal value re-sealed where the key is still a string model
-					var pl M
-					if json.Unmarshal([]byte(c), &pl) == nil {
-						keyName := "recoveryKey"
-						if typ == "update" {
-							keyName = "updateKey"
+				each(payload, func(i int, text func() string) {
+					typ, kt, rq := typ, kt, rq
+					addLazy("op", fmt.Sprintf("%s/%s/payload-%d", typ, kt, i), func() []byte {
+						c := text()
+						m2 := M{}
+						for k, v := range rq.m {
+							m2[k] = v
 						}
-						if km, ok := pl[keyName].(map[string]any); ok {
-							model := M{}
-							okModel := true
-							for _, f := range []string{"kty", "crv", "x", "y"} {
-								s, isStr := km[f].(string)
-								if km[f] != nil && !isStr {
-									okModel = false
+						m2["signedData"] = rq.signer.SignCompact(rq.signer.Header(), []byte(c))
+						// reveal value re-sealed where the key is still a string model
+						var pl M
+						if json.Unmarshal([]byte(c), &pl) == nil {
+							keyName := "recoveryKey"
+							if typ == "update" {
+								keyName = "updateKey"
+							}
+							if km, ok := pl[keyName].(map[string]any); ok {
+								model := M{}
+								okModel := true
+								for _, f := range []string{"kty", "crv", "x", "y"} {
+									s, isStr := km[f].(string)
+									if km[f] != nil && !isStr {
+										okModel = false
+									}
+									model[f] = s
 								}
-								model[f] = s
-							}
-							if n, ok := km["nonce"].(string); ok && n != "" {
-								model["nonce"] = n
-							}
-							if okModel {
-								m2["revealValue"] = mh.MustHash(18, jcs.MustCanonGo(model))
+								if n, ok := km["nonce"].(string); ok && n != "" {
+									model["nonce"] = n
+								}
+								if okModel {
+									m2["revealValue"] = mh.MustHash(18, jcs.MustCanonGo(model))
+								}
 							}
 						}
-					}
-					add("op", fmt.Sprintf("%s/%s/payload-%d", typ, kt, i), ops.Bytes(m2))
-				}
+						return ops.Bytes(m2)
+					})
+				})
 				// corruptions of the protected header
 				for i, h := range []string{`null`, `[]`, `"x"`, `{}`, `{"alg":null}`, `{"alg":5}`, `{"alg":["ES256"]}`, `{"alg":{"a":1}}`, `{"alg":"EdDSA","b64":"no"}`, `{"alg":"EdDSA","b64":false}`, `{"alg":"EdDSA","crit":5}`, `{"alg":true,"kid":[]}`} {
 					m2 := M{}
@@ -280,26 +307,29 @@ func Structured(thorough bool) []Input {
 			}
 		}
 		// long-form DIDs from corrupted create requests
-		for i, c := range corruptions(create, thorough) {
-			b := reseal(c, nil)
-			var m M
-			sfx := suffix
-			if json.Unmarshal(b, &m) == nil {
-				if sd, ok := m["suffixData"]; ok {
-					if cb, err := jcs.CanonGo(sd); err == nil {
-						sfx = mh.MustHash(18, cb)
+		each(create, func(i int, text func() string) {
+			kt, suffix := kt, suffix
+			addLazy("did", fmt.Sprintf("did/%s/%d", kt, i), func() []byte {
+				b := reseal(text(), nil)
+				var m M
+				sfx := suffix
+				if json.Unmarshal(b, &m) == nil {
+					if sd, ok := m["suffixData"]; ok {
+						if cb, err := jcs.CanonGo(sd); err == nil {
+							sfx = mh.MustHash(18, cb)
+						}
+					}
+					if cb, err := jcs.CanonGo(m); err == nil {
+						b = cb
 					}
 				}
-				if cb, err := jcs.CanonGo(m); err == nil {
-					b = cb
-				}
-			}
-			add("did", fmt.Sprintf("did/%s/%d", kt, i), []byte("did:ion:"+sfx+":"+enc.EncodeToString(b)))
-		}
+				return []byte("did:ion:" + sfx + ":" + enc.EncodeToString(b))
+			})
+		})
 		// JWKs
-		for i, c := range corruptions(any(upd.JWKMap()), thorough) {
-			add("jwk", fmt.Sprintf("jwk/%s/%d", kt, i), []byte(c))
-		}
+		each(any(upd.JWKMap()), func(i int, text func() string) {
+			addLazy("jwk", fmt.Sprintf("jwk/%s/%d", kt, i), func() []byte { return []byte(text()) })
+		})
 	}
 	// patches of each action and documents
 	patchTexts := []string{
@@ -314,15 +344,16 @@ func Structured(thorough bool) []Input {
 	}
 	for pi, pt := range patchTexts {
 		add("patch", fmt.Sprintf("patch/%d/valid", pi), []byte(pt))
-		for i, c := range corruptions(ops.ParseJSON(pt), thorough) {
-			add("patch", fmt.Sprintf("patch/%d/%d", pi, i), []byte(c))
-		}
+		pi := pi
+		each(ops.ParseJSON(pt), func(i int, text func() string) {
+			addLazy("patch", fmt.Sprintf("patch/%d/%d", pi, i), func() []byte { return []byte(text()) })
+		})
 	}
 	docText := `{"publicKey":[` + ops.PubKeyJSON("k1", keys.New("P-256", 511), `["authentication","keyAgreement"]`) + `,{"id":"k2","type":"Ed25519VerificationKey2018","publicKeyJwk":{"kty":"OKP","crv":"Ed25519","x":"` + keys.New("Ed25519", 511).JWK().X + `"},"purposes":["assertionMethod"]}],"service":[{"id":"s1","type":"T","serviceEndpoint":{"uri":"https://x"},"extra":[1]}],"alsoKnownAs":["https://a.example/"],"other":{"n":[1,{"m":null}]}}`
 	add("doc", "doc/valid", []byte(docText))
-	for i, c := range corruptions(ops.ParseJSON(docText), thorough) {
-		add("doc", fmt.Sprintf("doc/%d", i), []byte(c))
-	}
+	each(ops.ParseJSON(docText), func(i int, text func() string) {
+		addLazy("doc", fmt.Sprintf("doc/%d", i), func() []byte { return []byte(text()) })
+	})
 	// RFC 6902 grammar
 	toks := []string{"m", "missing", "0", "1", "-", "-1", "00", "99999999999", "~0", "~1", "~2", ""}
 	var ptrs []string
